@@ -94,7 +94,9 @@ def gen_large(tier, seed):
 
 
 def suites(tier, seed):
-    return [Suite("returns-vs-listener-states", "machine", lambda: __import__("props.c13", fromlist=["x"]).gen_matrix(tier, seed),
+    return [Suite("channel-close-mid-content", "machine", lambda: mg.close_mid_content_cases(Rng(seed + 91)), monitor=monitor, nontrivial=lambda c, il: True, canon=mg.canon_nondet, candidate_ok=mg.candidate_ok, exhaustive=True,
+                  rule="the server closes channel 1 (404 / 200) after the method, after the header, or after the first of two body frames of a delivery / get answer / returned message on it: only that channel ends (its caller and consumers get ServerClosedChannel, CloseOk is sent), a call and a delivery on channel 2 afterwards work"),
+            Suite("returns-vs-listener-states", "machine", lambda: __import__("props.c13", fromlist=["x"]).gen_matrix(tier, seed),
                   monitor=monitor, nontrivial=lambda c, il: True, canon=mg.canon_nondet, candidate_ok=mg.candidate_ok, shards=4,
                   rule="(the C13 listener matrix under the C03 monitor) one channel; return listener x confirm listener in {never set, live, receiver dropped, replaced} x blocked listener states x every sequence of 3 events from {returned message, ack, nack, blocked/unblocked}: every returned message reaches the return listener current at its completion, whatever happened to the other listeners"),
             Suite("bursts", "machine", lambda: mg.burst_cases(Rng(seed + 36)), monitor=monitor, nontrivial=lambda c, il: True, canon=mg.canon_nondet, shrink=False,
